@@ -16,7 +16,7 @@ tvars == <<train, links, pts, l, ref, viol, stats>>
 
 TInit == /\ l = 1 /\ ref = <<>> /\ viol = <<>>
          /\ stats = [profiles |-> 0, drift |-> 0, skipped |-> 0, cases |-> 0]
-         /\ train = [n |-> 1, car_len |-> 1, car_mass |-> 1, axles |-> 1, vmax |-> 1]
+         /\ train = [n |-> 1, car_len |-> 1, car_mass |-> 1, axles |-> 1, vmax |-> 1, more |-> <<>>, len_ov |-> 0, mass_ov |-> 0]
          /\ links = <<>> /\ pts = << <<0, 1>> >>
 
 Names(checks) == LET F == SelectSeq(checks, LAMBDA c : ~c[2]) IN [i \in 1..Len(F) |-> F[i][1]]
@@ -24,7 +24,7 @@ Report(names) == viol' = viol \o [i \in 1..Len(names) |-> <<l, Rec[l].case, name
 
 Begin == /\ Rec[l].ev = "begin"
          /\ train' = Rec[l].desc.train /\ links' = Rec[l].desc.links
-         /\ pts' = << <<0, train'.vmax>> >> /\ ref' = <<>>
+         /\ pts' = << <<0, TVmax(train')>> >> /\ ref' = <<>>
          /\ stats' = [stats EXCEPT !.cases = @ + 1]
          /\ UNCHANGED viol
 
